@@ -161,6 +161,45 @@ def _where(e):
     return last
 
 
+def _subs(T, depth=0):
+    """T and the annotations nested in it, innermost first."""
+    out = []
+    for a in t.get_args(T) if depth < 6 and t.get_origin(T) is not t.Literal else ():
+        for b in (a if isinstance(a, list) else [a]):
+            out += _subs(b, depth + 1)
+    return out + [T]
+
+
+def _label(S):
+    for nm, x in leaves():
+        try:
+            if x is S or (type(x) is type(S) and x == S):
+                return nm
+        except Exception:  # noqa: BLE001, S112
+            continue
+    o = t.get_origin(S)
+    if o is not None:
+        return getattr(o, "__name__", str(o)) + "[..]"
+    return getattr(S, "__name__", None) or type(S).__name__
+
+
+def _culprit(T, fn, e):
+    """Identity of a construction failure: the smallest nested annotation that fails in the same way on its own."""
+    from vlib import caches
+
+    want = (type(e), _where(e))
+    for S in _subs(T):
+        if S is T:
+            break
+        try:
+            caches.clear_all()
+            fn(S)
+        except Exception as e2:  # noqa: BLE001
+            if (type(e2), _where(e2)) == want:
+                return _label(S)
+    return _label(T)
+
+
 TWINS = {}  # a TypeVar argument behaves as its documented normalisation (bound / Union of constraints)
 
 
@@ -210,7 +249,7 @@ def check(name, T):
         except RecursionError:
             return ("construction_recursion", name, _d(what))
         except Exception as e:  # noqa: BLE001
-            return (f"construction_failed:{type(e).__name__}", _where(e), _d(what, name, e))
+            return (f"construction_failed:{type(e).__name__}", _where(e) + "|" + _culprit(T, fn, e), _d(what, name, e))
     # pass-through at an unresolvable root
     if T in (t.Any, object, T_free, t.Callable) :
         for s in (object(), b"raw \xe2\x82\xac", b"\xff\xfe", bytearray(b"ab"), memoryview(b"cd"), "text", 7, None, [1], {"k": b"v"}):
